@@ -15,7 +15,7 @@ import (
 
 func init() {
 	Registry["C17"] = Set{
-		Explanation: "Decides structural clauses of the application lifecycle: A1 in start, the CAS Loaded->Running success edge dominates the first member spawn, a failed spawn kills every member started so far and stores Loaded before the error is returned, and the Start callback has exactly one call site, after all spawns; A2 mode table — in terminate the 'stop everything' action (swap to Stopping + shutdown of all members) is reachable only with mode Permanent, or with mode Transient on paths that passed reason != Normal and reason != Shutdown, never with Temporary (enum value sets refined along the switch edges plus must-pass of the reason tests); A3 the Terminate callback is dominated by 'member group empty' and by the swap to Loaded whose old value was tested, so it runs once per stop; A4 every path to application.start starts the spec's dependencies first (all call sites are preceded by the shared dependency step); A5 stop returns nil only from the stopped channel or when the state is already Loaded, and the stopped channel is closed only on the path that found the group empty. Added while probing: A1 a successful start stores the requested mode; A2 at each stop-all site the edge that won the swap to Stopping sends an exit to every member and records the causing reason before the common tail; A5 identifies the state word by its atomic load (a select index is not a state). A5 also: stop records its reason before it takes the members down; A6 nothing a Range callback over the member group calls synchronously locks that group again (lock re-entrancy through the static call graph); A1/A2 recognise a complete member fan-out in both shapes (Range callback that never stops, or a loop over the collected members left only by exhaustion). A8 the state of one run that terminate() reads (mode, the stopped channel, the reason) is written by start() before the first member is spawned, and a channel terminate() closes is created by start(). A9 a member's termination is ordered against the start: terminate() consults a guard (phase flag under a lock, or a mutex) that start() engages before the first spawn, before it touches the member group; while the start is in progress it only records the termination; every path of start() after a spawn ends the phase; the recorded terminations are replayed to terminate() after the flag is reset, in a loop left only by exhaustion. A10 every call of application.start is given the specification's mode, a mode constant, or a caller's mode that is replaced by the specification's when zero — never the run-scoped field that stop() overwrites. A11 on every path from a member spawn to a successful return start() looks at the state again, and on the Stopping edge sends an exit to every member (a stop request made during the start reaches the members started after it). A11 on every path from a member spawn to a successful return start() looks at the state again, and on the Stopping edge sends an exit to every member (a stop request made during the start reaches the members started after it).",
+		Explanation: "Decides structural clauses of the application lifecycle: A1 in start, the CAS Loaded->Running success edge dominates the first member spawn, a failed spawn kills every member started so far and stores Loaded before the error is returned, and the Start callback has exactly one call site, after all spawns; A2 mode table — in terminate the 'stop everything' action (swap to Stopping + shutdown of all members) is reachable only with mode Permanent, or with mode Transient on paths that passed reason != Normal and reason != Shutdown, never with Temporary (enum value sets refined along the switch edges plus must-pass of the reason tests); A3 the Terminate callback is dominated by 'member group empty' and by the swap to Loaded whose old value was tested, so it runs once per stop; A4 every path to application.start starts the spec's dependencies first (all call sites are preceded by the shared dependency step); A5 stop returns nil only from the stopped channel or when the state is already Loaded, and the stopped channel is closed only on the path that found the group empty. Added while probing: A1 a successful start stores the requested mode; A2 at each stop-all site the edge that won the swap to Stopping sends an exit to every member and records the causing reason before the common tail; A5 identifies the state word by its atomic load (a select index is not a state). A5 also: stop records its reason before it takes the members down; A6 nothing a Range callback over the member group calls synchronously locks that group again (lock re-entrancy through the static call graph); A1/A2 recognise a complete member fan-out in both shapes (Range callback that never stops, or a loop over the collected members left only by exhaustion). A8 the state of one run that terminate() reads (mode, the stopped channel, the reason) is written by start() before the first member is spawned, and a channel terminate() closes is created by start(). A9 a member's termination is ordered against the start: terminate() consults a guard (phase flag under a lock, or a mutex) that start() engages before the first spawn, before it touches the member group; while the start is in progress it only records the termination; every path of start() after a spawn ends the phase; the recorded terminations are replayed to terminate() after the flag is reset, in a loop left only by exhaustion. A10 every call of application.start is given the specification's mode, a mode constant, or a caller's mode that is replaced by the specification's when zero — never the run-scoped field that stop() overwrites. A11 on every path from a member spawn to a successful return start() looks at the state again, and on the Stopping edge sends an exit to every member (a stop request made during the start reaches the members started after it). A11 on every path from a member spawn to a successful return start() looks at the state again, and on the Stopping edge sends an exit to every member (a stop request made during the start reaches the members started after it). A12 = C10.N11: the exit signals of an application to its members are sent on behalf of the member's parent (a remotely started application could not be stopped when a member trapped exits).",
 		NotDecided: []string{
 			"interleavings of start/stop/member death (e.g. a member dying before it is stored in the group)",
 			"order of member starts relative to dependency graphs with cycles",
@@ -24,7 +24,7 @@ func init() {
 		Run:         runC17,
 	}
 	Registry["C10"] = Set{
-		Explanation: "Decides structural clauses of 'no orphans': N1 every spawn issued by the supervisor and the pool passes options with LinkParent (and the supervisor LinkChild) constant-true; N2 spawn adds the child->parent link when LinkParent is set, before the child is published, and the exit sent when a process terminates names the terminated process as sender, so that a trapping child cannot trap its parent's exit (C05.T4 checks the trap exemption); N3 the node's wait group is incremented at spawn and decremented at process release under the same condition, graceful node stop waits on it before the network is torn down, and it sends the shutdown exit from each process's parent pid; N4 application.stop reports success only from the stopped channel or an already loaded state, and the channel is closed only when the member group is empty. Added while probing: N2 on a failed ProcessInit the children already spawned get their exit through sendExitMessage with the failed process as sender. N2 also: on a failed ProcessInit the relations that target the failed process are drained (RouteTerminatePID), so children linked to it by LinkParent get its exit; N3 the Wait is on every path to NetworkStop that is consistent with force == false; N5 = C17.A6. N6 lock pairing — in every function that touches the member group's (lib.Map) lock a forward data flow over (held read/write, unlock deferred) shows: no return while the lock is held without a deferred unlock, no unlock (explicit or deferred) of a lock that is not held or of the other kind, no second lock (a leaked lock blocks every later start, stop or member termination of the application for ever, an unlock of an unlocked mutex is a fatal error that takes the node down). N7 = C08.S12: a supervisor that terminates itself waits for every running child. N8 the refused-push edge of the exit delivery helper does not just return an error its callers ignore (open finding F-BK: a full bounded Urgent queue drops the parent's exit signal). N9 = C04.L6p. N10 node.Stop raises a flag before it walks the process table and spawn reads it after processes.Store, sending the exit signal itself on the set edge (a process registered after the walk passed would otherwise never be asked to terminate and Stop would never return).",
+		Explanation: "Decides structural clauses of 'no orphans': N1 every spawn issued by the supervisor and the pool passes options with LinkParent (and the supervisor LinkChild) constant-true; N2 spawn adds the child->parent link when LinkParent is set, before the child is published, and the exit sent when a process terminates names the terminated process as sender, so that a trapping child cannot trap its parent's exit (C05.T4 checks the trap exemption); N3 the node's wait group is incremented at spawn and decremented at process release under the same condition, graceful node stop waits on it before the network is torn down, and it sends the shutdown exit from each process's parent pid; N4 application.stop reports success only from the stopped channel or an already loaded state, and the channel is closed only when the member group is empty. Added while probing: N2 on a failed ProcessInit the children already spawned get their exit through sendExitMessage with the failed process as sender. N2 also: on a failed ProcessInit the relations that target the failed process are drained (RouteTerminatePID), so children linked to it by LinkParent get its exit; N3 the Wait is on every path to NetworkStop that is consistent with force == false; N5 = C17.A6. N6 lock pairing — in every function that touches the member group's (lib.Map) lock a forward data flow over (held read/write, unlock deferred) shows: no return while the lock is held without a deferred unlock, no unlock (explicit or deferred) of a lock that is not held or of the other kind, no second lock (a leaked lock blocks every later start, stop or member termination of the application for ever, an unlock of an unlocked mutex is a fatal error that takes the node down). N7 = C08.S12: a supervisor that terminates itself waits for every running child. N8 the refused-push edge of the exit delivery helper does not just return an error its callers ignore (open finding F-BK: a full bounded Urgent queue drops the parent's exit signal). N9 = C04.L6p. N10 node.Stop raises a flag before it walks the process table and spawn reads it after processes.Store, sending the exit signal itself on the set edge (a process registered after the walk passed would otherwise never be asked to terminate and Stop would never return). N11 every exit signal an application sends to a group member carries the member's parent as the sender (never node.SendExit, whose sender is the local core): the members of an application started by a remote node have that node's core as parent and trap anything else. N12 the pool's termination path looks at the ring of its workers before the pool is reported as terminated (open finding F-BW: today the workers are taken down by their link afterwards, so ApplicationStop can return while a worker still runs).",
 		NotDecided: []string{
 			"transitive termination through a supervision tree under arbitrary fault points",
 			"that children terminate within the stop timeout",
@@ -64,6 +64,7 @@ func runC17(p *load.Program, r *core.Report) {
 	c17StartingPhase(p, r, appT, start, term)
 	c17StartMode(p, r, appT, start)
 	c17StopDuringStart(p, r, appT, start, st["ApplicationStateStopping"])
+	appStopSignalFromParent(p, r, "C17.A12 stop-signal-from-the-parent", "C17.A12")
 
 	// ---- A1
 	rule := "C17.A1 start"
@@ -627,8 +628,8 @@ func c10Stop(p *load.Program, r *core.Report, rule string, stop, term *ssa.Funct
 			if fan != nil {
 				return
 			}
-			if _, why := memberFanout(in, "group", "Kill", "SendExit"); why == "" {
-				if d, _ := memberFanout(in, "group", "Kill", "SendExit"); d != nil {
+			if _, why := memberFanout(in, "group", "Kill", "SendExit", "RouteSendExit"); why == "" {
+				if d, _ := memberFanout(in, "group", "Kill", "SendExit", "RouteSendExit"); d != nil {
 					fan = in
 				}
 			}
@@ -694,6 +695,8 @@ func runC10(p *load.Program, r *core.Report) {
 	c08WaitSetComplete(p, r, supMachines(p), "C10.N7 supervisor-waits-for-every-running-child", "C10.N7", 3)
 	c10ExitNeverDropped(p, r, a)
 	c10StopSeesLateSpawns(p, r, a)
+	appStopSignalFromParent(p, r, "C10.N11 application-stop-signal-from-the-parent", "C10.N11")
+	c10PoolOutlivedByWorkers(p, r)
 	remoteSpawnParentLink(a, r, "C10.N9 remote-child-linked-to-parent-on-both-nodes")
 	lockPairing(p, r, "C10.N6 member-group-lock-paired", "C10.N6", 8, func(o string) bool { return strings.HasPrefix(o, "lib.Map[") })
 	// ---- N1
